@@ -24,6 +24,7 @@ PROPS = {
     "C17": "c17_faults",
     "C18": "c18_addr_range",
     "C19": "c19_unresolved",
+    "C20": "c20_cli",
 }
 
 
